@@ -306,3 +306,37 @@ Proof.
   exists 1%Z, [(1%Z, lz_cell)], ["m1_-1.0"%string], 1%Z, lz_cell.
   repeat split; try reflexivity; [now left|]. vm_compute. intros [H|[]]. discriminate.
 Qed.
+
+(* ---- provenance and GEOMCOMP together ---- *)
+From T4V Require Import C09.ProofsFill.
+
+Lemma material_name_eq c L : c_mat c = c_mat L -> c_dens c = c_dens L -> material_name c = material_name L.
+Proof. unfold material_name. now intros -> ->. Qed.
+
+(* the volumes of the cells returned by the "treat FILL" loop (each volume
+   carries its cell's idorigin, as pot_to_t4_cell passes it on) are attached to
+   the composition named after the LEAF of the hierarchy: a parsed cell without
+   fill — the filler, not the container *)
+Theorem volume_gets_leaf_material : forall fuel d0 next st' ks vols g,
+  pristine d0 -> (forall k, lookup k d0 <> None -> (k <= next)%Z) ->
+  treat_fill fuel d0 next = Ok (st', ks) ->
+  (forall k v, In (k, v) vols -> v_fictive v = false ->
+     In k ks /\ exists c, lookup k (fst st') = Some c /\ v_origin v = c_origin c) ->
+  geomcomp vols (fst st') = Ok g ->
+  forall k v, In (k, v) vols -> v_fictive v = false ->
+    exists L, lookup (head_of (fst st') k) d0 = Some L /\ c_fill L = None /\
+              member g (material_name L) k.
+Proof.
+  intros fuel d0 next st' ks vols g Hpr Hfr Ht Hv Hg k v Hin Hf.
+  destruct (provenance_head_is_leaf fuel d0 next st' ks Hpr Hfr Ht) as [_ [Hfin Hx]].
+  destruct (Hv k v Hin Hf) as [Hk [c [Hc Ho]]].
+  rewrite Forall_forall in Hfin. destruct (Hfin k Hk) as [c' [L [H1 [H2 [H3 [H4 [H5 [H6 _]]]]]]]].
+  rewrite Hc in H1. inversion H1; subst c'.
+  exists L. unfold head_of. rewrite Hc. split; [exact H3|]. split; [exact H4|].
+  destruct (geomcomp_name vols (fst st') g Hg) as [A _].
+  destruct (A k v Hin Hf) as [cs [Hcs Hm]].
+  assert (Hsrc : vol_source k v = origin_head k c) by (unfold vol_source, origin_head; now rewrite Ho).
+  rewrite Hsrc, (Hx _ _ H3) in Hcs. inversion Hcs; subst cs.
+  (* the cell looked up by GEOMCOMP is L itself *)
+  exact Hm.
+Qed.
